@@ -9,6 +9,7 @@ import (
 
 	"seehuhn.de/go/sfnt"
 	"seehuhn.de/go/sfnt/cff"
+	"seehuhn.de/go/sfnt/glyf"
 
 	"verif/harness/internal/gen/fontgen"
 	"verif/harness/internal/mon"
@@ -88,6 +89,14 @@ func c18corpus(c *mon.Ctx) []c18font {
 		f, _ := fontgen.Font(c.Rand("corpus", i), o)
 		if f.CreationTime.IsZero() && f.ModificationTime.IsZero() {
 			f.ModificationTime = f.ModificationTime.AddDate(2001, 0, 0)
+		}
+		if go_, ok := f.Outlines.(*glyf.Outlines); ok && f.Gsub == nil && f.Gpos == nil {
+			// make sure that the file ends with a table that is copied raw,
+			// so that a lost final byte cannot be noticed by a table decoder
+			if go_.Tables == nil {
+				go_.Tables = map[string][]byte{}
+			}
+			go_.Tables["gasp"] = []byte{0, 1, 0, 2, 0, 8, 0, 2, 0xff, 0xff, 0, 3}
 		}
 		fonts = append(fonts, c18font{fmt.Sprintf("generated-%d-%s", i, o.Kind), f})
 	}
